@@ -32,6 +32,12 @@ var nondetSources = map[string]bool{
 	"os.Getpid": true, "os.Hostname": true, "os.Getenv": true, "os.Environ": true, "os.LookupEnv": true, "os.Getppid": true,
 	"runtime.NumGoroutine": true, "runtime.GOMAXPROCS": true, "runtime.NumCPU": true,
 	"os.Getwd": false,
+	// the identity of the running binary, of the user and of the machine
+	"runtime/debug.ReadBuildInfo": true, "runtime.Version": true, "os.Executable": true, "os/user.Current": true, "os.Getuid": true,
+	"os.Geteuid": true, "os.Getgid": true, "os.UserHomeDir": true, "os.UserCacheDir": true, "os.UserConfigDir": true, "os.TempDir": true,
+	// the generator's declared input is what packages.Load reads; it reads no file of its own (an earlier output, a leftover)
+	"os.Open": true, "os.ReadFile": true, "os.ReadDir": true, "(*os.File).Read": true, "(*os.File).ReadAt": true, "(*os.File).ReadDir": true,
+	"io/fs.ReadFile": true, "io/fs.ReadDir": true, "path/filepath.Glob": true, "path/filepath.WalkDir": true, "path/filepath.Walk": true,
 	// file metadata (timestamps, inode identity) is not part of the declared input
 	"os.Stat": true, "os.Lstat": true, "(*os.File).Stat": true, "invoke (io/fs.FileInfo).ModTime": true,
 	"os.SameFile": true, "os.Chtimes": true, "invoke (io/fs.DirEntry).Info": true,
